@@ -71,6 +71,11 @@ func main() {
 			fmt.Fprintln(os.Stderr, err)
 			os.Exit(2)
 		}
+	case "c14decode":
+		if err := props.C14Decode(*file); err != nil {
+			fmt.Fprintln(os.Stderr, err)
+			os.Exit(2)
+		}
 	case "orchestrate":
 		p := props.Get(*prop)
 		if p == nil {
